@@ -229,10 +229,12 @@ public:
 	void join()
 	{
 #ifdef _WIN32
-		WaitForSingleObject(_thread, INFINITE);
+		if (WaitForSingleObject(_thread, INFINITE) == WAIT_OBJECT_0)
+			_threadFinished = true;
 #else
 		void* ret;
-		pthread_join(_thread, &ret);
+		if (pthread_join(_thread, &ret) == 0)
+			_threadFinished = true; // a joined thread has finished, whichever Thread object it was started through
 		_thread = 0;
 #endif
 	}
